@@ -1,6 +1,8 @@
 package main
 
 import (
+	"github.com/z7zmey/php-parser/pkg/ast"
+	"github.com/z7zmey/php-parser/verifmc/astx"
 	"encoding/json"
 	"fmt"
 	"strconv"
@@ -115,3 +117,5 @@ func bigPrograms(f *corpus.Fam, minTokens int) []string {
 	}
 	return out
 }
+
+func oracleNodes(res drive.Result) []ast.Vertex { return astx.PreOrder(res.Root) }
